@@ -1,6 +1,222 @@
-//! Thread dimension (run under Miri's seeded scheduler; see DESIGN.md §3.3): filled in below.
+//! Thread dimension: real caller threads running concurrently. Natively the interleaving would be
+//! decided by the OS (not replayable), so this scenario is only *registered* under Miri, whose
+//! scheduler and RNG are a pure function of `-Zmiri-seed`: one Miri seed = one exactly repeatable
+//! interleaving, including the race on the `lazy_static` initialisation of the shared lexical
+//! format instances and std's real `RandomState` keys (un-hooked build).
+//!
+//!   narsim threads --seed S [--threads 3] [--ops 4]
+//!
+//! Each thread gets a queue of operations (stateless parses through the shared statics, small
+//! `parse_multi` sessions, and hash / equality observations on terms built by *another* thread).
+//! After joining, every observation is recomputed sequentially on the main thread and must agree.
 
-pub fn cmd_threads(_args: &[String]) -> u8 {
-    eprintln!("narsim threads: not built yet");
-    2
+use crate::describe::*;
+use crate::formats::*;
+use crate::hashers::*;
+use crate::prng::Choices;
+use crate::realise::{realise, RStats, RealiseParams};
+use crate::refmodel::*;
+use crate::sim_sessions::{eval_entry, Entry, ENTRY_NAMES};
+use narsese::enum_narsese::Term;
+use std::sync::Arc;
+
+#[derive(Clone, Debug)]
+enum TOp {
+    Call(Entry, usize, String),
+    Batch(usize, Vec<String>),
+    /// hash + compare shared term `i` with shared term `j`
+    Observe(usize, usize),
+}
+
+fn inputs_for(f: usize) -> Vec<&'static str> {
+    match f {
+        0 => vec!["<A --> B>.", "$0.5$ <{A, B} <-> {B, A}>. :|: %1.0;0.9%", "<A --> B>. %2%", "(&&, A, B", "$0.5$", "%0.9%", "(*, A, +1, _x)", "<(&|, C, D) <|> (&|, D, C)>?"],
+        1 => vec![r"\left<A \rightarrow{} B\right>.", r"\left(\wedge{}\; A\; B\right)", r"\$0.5\$ \left<A \rightarrow{} B\right>. \langle{}1,0.9\rangle{}", r"\left<A \rightarrow{} B\right>. \langle{}2\rangle{}", r"\$0.5\$"],
+        _ => vec!["「A是B」。", "预0.5算「『A，B』似『B，A』」。 真1、0.9值", "「A是B」。 真2值", "（与，A，B", "预0.5算", "「我是谁」"],
+    }
+}
+
+fn batch_outcomes(f: usize, inputs: &[String]) -> Vec<String> {
+    let refs: Vec<&str> = inputs.iter().map(|s| s.as_str()).collect();
+    match guarded(|| ENUM_FORMATS[f].parse_multi(refs)) {
+        None => vec!["PANIC".into()],
+        Some(rs) => rs
+            .into_iter()
+            .map(|r| match r {
+                Ok(v) => format!("2|{:?}", abstract_value(&v)),
+                Err(_) => "0|".into(),
+            })
+            .collect(),
+    }
+}
+
+fn observe(shared: &[Term], i: usize, j: usize) -> String {
+    let (a, b) = (&shared[i], &shared[j]);
+    let eq = a == b;
+    let (ha, hb) = (hash3(a, 77), hash3(b, 77));
+    // a table filled here, on this thread
+    let mut set: std::collections::HashSet<Term> = std::collections::HashSet::new();
+    set.insert(a.clone());
+    let found = set.contains(b);
+    format!("eq={eq} ha={ha:?} hb={hb:?} found={found}")
+}
+
+pub fn cmd_threads(args: &[String]) -> u8 {
+    let mut seed = 1u64;
+    let mut n_threads = 3usize;
+    let mut n_ops = 4usize;
+    let mut mix = "all".to_string();
+    let mut i = 0;
+    while i + 1 < args.len() {
+        match args[i].as_str() {
+            "--seed" => {
+                seed = if args[i + 1] == "rng" {
+                    // derived from the process's source of hasher randomness: under Miri a pure
+                    // function of -Zmiri-seed, so one Miri seed decides workload AND schedule
+                    use std::hash::BuildHasher;
+                    std::collections::hash_map::RandomState::new().hash_one(0x5eed_u64)
+                } else {
+                    args[i + 1].parse().unwrap_or(1)
+                }
+            }
+            "--mix" => mix = args[i + 1].clone(),
+            "--threads" => n_threads = args[i + 1].parse().unwrap_or(3),
+            "--ops" => n_ops = args[i + 1].parse().unwrap_or(4),
+            _ => {}
+        }
+        i += 2;
+    }
+    let mut ch = Choices::generate(crate::prng::run_seed(seed, 99, 0));
+    // shared terms: twins of two small descriptions, to be observed by other threads
+    let gp = GenParams { max_depth: 2, max_fan: 3, n_names: 3, unordered_bias: 3, exotic: false };
+    let rp = RealiseParams { reorder: true, duplicates: true, capacity: true, wrap: 0, text_routes: false };
+    let mut rs = RStats::default();
+    let d = gen_desc(&mut ch, &gp, 0, false);
+    let mut shared: Vec<Term> = vec![];
+    for _ in 0..2 {
+        shared.push(realise(&d, &mut ch, &mut rs, &rp));
+    }
+    // one more twin is built by a spawned thread (its RandomState keys come from that thread)
+    let d2 = d.clone();
+    let mut ch2 = Choices::generate(crate::prng::run_seed(seed, 99, 1));
+    let built_elsewhere = std::thread::spawn(move || {
+        let mut rs = RStats::default();
+        realise(&d2, &mut ch2, &mut rs, &rp)
+    })
+    .join()
+    .expect("builder thread");
+    shared.push(built_elsewhere);
+    if let Some((near, _, _)) = near_miss(&d, &mut ch) {
+        shared.push(realise(&near, &mut ch, &mut rs, &rp));
+    }
+    let shared = Arc::new(shared);
+    let expected_same: Vec<Vec<bool>> = shared.iter().map(|a| shared.iter().map(|b| abstract_term(a) == abstract_term(b)).collect()).collect();
+
+    // workload
+    let mut queues: Vec<Vec<TOp>> = vec![];
+    for _ in 0..n_threads {
+        let mut q = vec![];
+        for _ in 0..n_ops {
+            let f = ch.choose(3) as usize;
+            let ins = inputs_for(f);
+            let pick = |ch: &mut Choices| ins[ch.choose(ins.len() as u32) as usize].to_string();
+            let weights: [u32; 4] = match mix.as_str() {
+                "terms" => [0, 0, 0, 100],
+                "parse" => [40, 30, 30, 0],
+                _ => [30, 25, 20, 25],
+            };
+            match ch.weighted(&weights) {
+                0 => q.push(TOp::Call([Entry::Lex, Entry::LexTerm, Entry::LexFold][ch.choose(3) as usize].clone(), f, pick(&mut ch))),
+                1 => q.push(TOp::Call(Entry::Enum, f, pick(&mut ch))),
+                2 => {
+                    let n = ch.range(2, 3);
+                    q.push(TOp::Batch(f, (0..n).map(|_| pick(&mut ch)).collect()));
+                }
+                _ => q.push(TOp::Observe(ch.choose(shared.len() as u32) as usize, ch.choose(shared.len() as u32) as usize)),
+            }
+        }
+        queues.push(q);
+    }
+    println!("narsim threads: seed={seed} mix={mix} threads={n_threads} ops/thread={n_ops} shared terms={} (hooked_build={})", shared.len(), crate::sim_terms::HOOKED);
+
+    // concurrent execution
+    let handles: Vec<_> = queues
+        .iter()
+        .cloned()
+        .map(|q| {
+            let shared = Arc::clone(&shared);
+            std::thread::spawn(move || {
+                q.iter()
+                    .map(|op| match op {
+                        TOp::Call(e, f, s) => vec![eval_entry(e, *f, s).wire()],
+                        TOp::Batch(f, ins) => batch_outcomes(*f, ins),
+                        TOp::Observe(i, j) => vec![observe(&shared, *i, *j)],
+                    })
+                    .collect::<Vec<_>>()
+            })
+        })
+        .collect();
+    let concurrent: Vec<Vec<Vec<String>>> = handles.into_iter().map(|h| h.join().expect("client thread")).collect();
+
+    // sequential recomputation + oracle
+    let mut bad = 0;
+    for (t, q) in queues.iter().enumerate() {
+        for (k, op) in q.iter().enumerate() {
+            let again = match op {
+                TOp::Call(e, f, s) => vec![eval_entry(e, *f, s).wire()],
+                TOp::Batch(f, ins) => batch_outcomes(*f, ins),
+                TOp::Observe(i, j) => vec![observe(&shared, *i, *j)],
+            };
+            if again != concurrent[t][k] {
+                bad += 1;
+                let what = match op {
+                    TOp::Call(e, f, s) => format!("C08 {} [{}] {:?}", ENTRY_NAMES[e.idx()], FORMAT_NAMES[*f], s),
+                    TOp::Batch(f, ins) => format!("C08 parse_multi [{}] {:?}", FORMAT_NAMES[*f], ins),
+                    TOp::Observe(i, j) => {
+                        // which part differs: the == answer (C06) or the hashes / table lookup (C07)
+                        let eq_part = |s: &str| s.split(' ').next().unwrap_or("").to_string();
+                        let (a, b) = (&again[0], &concurrent[t][k][0]);
+                        let p = if eq_part(a) != eq_part(b) { "C06 equality" } else { "C07 hash / table lookup" };
+                        format!("{p} of shared terms {i},{j} depends on the thread")
+                    }
+                };
+                println!("THREAD-DISAGREE thread={t} op={k} {what}: concurrently {:?}, sequentially {:?}", concurrent[t][k], again);
+            }
+            // batch positions vs alone; observations vs the reference model
+            match op {
+                TOp::Batch(f, ins) => {
+                    for (p, s) in ins.iter().enumerate() {
+                        let alone = eval_entry(&Entry::Enum, *f, s);
+                        if alone.kind != 1 && concurrent[t][k].get(p) != Some(&alone.wire()) {
+                            bad += 1;
+                            println!("THREAD-DISAGREE thread={t} op={k} C08 parse_multi [{}] position {p} {:?}: {:?} but alone {:?}", FORMAT_NAMES[*f], s, concurrent[t][k].get(p), alone.wire());
+                        }
+                    }
+                }
+                TOp::Observe(i, j) => {
+                    let o = &concurrent[t][k][0];
+                    let same = expected_same[*i][*j];
+                    if o.starts_with("eq=true") != same {
+                        bad += 1;
+                        println!("THREAD-DISAGREE thread={t} op={k} C06: shared terms {i},{j} denote {} term but {o}", if same { "the same" } else { "a different" });
+                    }
+                    if same {
+                        let (ha, hb) = (hash3(&shared[*i], 77), hash3(&shared[*j], 77));
+                        if ha != hb || !o.ends_with("found=true") {
+                            bad += 1;
+                            println!("THREAD-DISAGREE thread={t} op={k} C07: shared terms {i},{j} are the same term but {o}");
+                        }
+                    }
+                }
+                _ => {}
+            }
+        }
+    }
+    if bad > 0 {
+        println!("narsim threads: {bad} disagreement(s)");
+        1
+    } else {
+        println!("narsim threads: ok ({} operations on {n_threads} threads agree with their sequential recomputation)", n_threads * n_ops);
+        0
+    }
 }
